@@ -11,6 +11,7 @@
   number type `α` (so also for the Float twin); the statements about sums are over ℝ.
 -/
 import KiraModel.Proofs.FlowLemmas
+import KiraModel.Proofs.MixerPausedLemmas
 import KiraModel.Proofs.RealOps
 
 set_option linter.unusedSectionVars false
@@ -325,5 +326,191 @@ example : ∃ r : Renderer ℝ (PSnd ℝ) (PFx ℝ) Unit Unit, r.Clean ∧ Trk.S
      temp := zeros 4 },
    ⟨rfl, ⟨rfl, rfl, ⟨Trk.build_clean 0 0 [] [] false 4, trivial⟩, trivial, by simp [Mixer.new], by simp [Mixer.new]⟩⟩,
    ⟨⟨by simp [Trk.build, Psm.new, Parameter.new], trivial⟩, trivial⟩, by norm_num⟩
+
+/-! ### each frame exactly once — trees with paused sub-tracks (Proofs/MixerPausedLemmas.lean) -/
+
+section paused
+variable {α : Type} [Add α] [Sub α] [Mul α] [Div α] [Neg α] [LT α] [LE α]
+  [DecidableLT α] [DecidableLE α] [OfScientific α] [KOps α]
+variable {S E P X : Type} (C : Comps α S E P) (V : EnvOps α X)
+
+/-- **One chunk, any tree, any mix of playback states** (Playing, Pausing, Paused, WaitingToResume,
+    Resuming, …), about the imperative `Track::process`.  After a chunk of `n` frames the log of every
+    sound and effect of the subtree is `Trk.logsAfter`, which is defined by recursion over the nested
+    tracks exactly as the ancestor chain dictates: if the track advances in this chunk
+    (`Trk.advancesIn`, i.e. `is_advancing()` after the per-chunk state update), each of its own sounds and
+    effects gets exactly one request of `n` frames and the same rule applies to every child; if it does
+    not, *nothing* in the whole subtree is asked (all logs as before), the track returns exact silence and
+    feeds no send track. -/
+theorem C02_each_frame_once_any_chunk (hC : C.LenPres) (sl : S → List Nat) (fl : E → List Nat)
+    (hL : C.Logging sl fl) (ibs : Nat) (t : Trk α S E P) (ht : Trk.Clean ibs t) (dt : α) (parentInfo : Info α)
+    (n : Nat) (hn : n ≤ ibs) (sends : List (SendTrk α E)) :
+    Trk.logs sl fl (Trk.process C dt parentInfo t (zeros n) sends).1 = Trk.logsAfter C sl fl dt parentInfo n t
+      ∧ (Trk.advancesIn C dt parentInfo n t = true →
+          Trk.logsAfter C sl fl dt parentInfo n t
+            = (t.data.sounds.map sl ++ t.data.effects.map fl).map (· ++ [n])
+              ++ Trk.logsAfterList C sl fl dt (Trk.trackInfo C t.data parentInfo) n t.children)
+      ∧ (Trk.advancesIn C dt parentInfo n t = false →
+          Trk.logsAfter C sl fl dt parentInfo n t = Trk.logs sl fl t
+            ∧ (Trk.process C dt parentInfo t (zeros n) sends).2.1 = zeros n
+            ∧ (Trk.process C dt parentInfo t (zeros n) sends).2.2 = sends) := by
+  refine ⟨?_, ?_, ?_⟩
+  · rw [(Trk.refines C hC ibs t ht dt parentInfo n hn sends).1]
+    exact Trk.spec_logs_any C sl fl hC hL t dt parentInfo n sends
+  · intro h
+    cases t with
+    | node d c p =>
+      simp only [Trk.advancesIn, Trk.data] at h
+      rw [Trk.logsAfter, if_pos h]; rfl
+  · intro h
+    have hz := C02_silent_branches C dt parentInfo t (zeros n) sends (by simpa using h)
+    simp only [length_zeros] at hz
+    refine ⟨?_, hz.1, hz.2⟩
+    cases t with
+    | node d c p =>
+      simp only [Trk.advancesIn, Trk.data] at h
+      rw [Trk.logsAfter, if_neg (by simp [h])]
+
+/-- **The live mask follows the ancestor chain** (`Trk.mask`, one flag per sound / effect in log order):
+    under a track that is not advancing every flag of the whole subtree is `false`; under an advancing
+    track the track's own sounds and effects are flagged `true` and the children are judged by the same
+    rule.  The mixer's own components (main track, send tracks) have no pausable ancestor: always `true`. -/
+theorem C02_live_mask_chain (sl : S → List Nat) (fl : E → List Nat) (d : TrkData α S E P)
+    (children pending : List (Trk α S E P)) :
+    (Trk.advancing d = false → ∀ b ∈ Trk.mask sl fl (.node d children pending), b = false)
+      ∧ (Trk.advancing d = true → Trk.mask sl fl (.node d children pending)
+          = List.replicate (d.sounds.length + d.effects.length) true ++ Trk.maskList sl fl children) := by
+  constructor
+  · intro h b hb
+    rw [Trk.mask, if_neg (by simp [h])] at hb
+    simp only [List.mem_map] at hb
+    obtain ⟨_, _, e⟩ := hb
+    exact e.symm
+  · intro h
+    rw [Trk.mask, if_pos h]
+    congr 1
+    have hc : ∀ (l : List (List Nat)), l.map (fun _ => true) = List.replicate l.length true := by
+      intro l
+      induction l with
+      | nil => rfl
+      | cons x xs ih => rw [List.map_cons, ih, List.length_cons, List.replicate_succ]
+    rw [hc, List.length_append, List.length_map, List.length_map]
+
+/-- **A whole callback of a tree with paused sub-tracks: each frame exactly once, or not at all.**
+    For a clean renderer whose tracks are each simply Playing or simply Paused (any nesting, any mix), one
+    device callback of `frames` frames leaves the log of component number `i` (any sound or effect, in
+    `Mixer.logs` order) as: the old log followed by exactly the chunk lengths `[ibs, …, ibs, frames % ibs]`
+    if its whole ancestor chain is advancing (`Mixer.live`), and *unchanged* — zero requests — if some
+    ancestor is paused.  The tree is settled and clean again afterwards, with the same live mask. -/
+theorem C02_each_frame_once_paused_tree (hC : C.LenPres) (sl : S → List Nat) (fl : E → List Nat)
+    (hL : C.Logging sl fl) (r : Renderer α S E P X) (hr : r.Clean) (hs : Trk.RestingList r.mixer.subTracks)
+    (hibs : 0 < r.ibs) (frames ch : Nat) :
+    (∀ i : Nat, (Mixer.logs sl fl (Renderer.processLoop C V ch frames r frames).1.mixer).getD i []
+        = if (Mixer.live sl fl r.mixer).getD i false
+          then (Mixer.logs sl fl r.mixer).getD i [] ++ chunkSizes frames r.ibs frames
+          else (Mixer.logs sl fl r.mixer).getD i [])
+      ∧ chunkSizes frames r.ibs frames
+          = List.replicate (frames / r.ibs) r.ibs ++ (if frames % r.ibs = 0 then [] else [frames % r.ibs])
+      ∧ Trk.RestingList (Renderer.processLoop C V ch frames r frames).1.mixer.subTracks
+      ∧ (Renderer.processLoop C V ch frames r frames).1.Clean := by
+  obtain ⟨h1, h2, h3⟩ := Renderer.processLoop_logsPlus C sl fl V hC hL ch r hr hs frames
+  refine ⟨fun i => ?_, chunkSizes_pattern frames r.ibs frames hibs (Nat.le_refl _), h2, h3⟩
+  rw [h1]
+  exact Asked.getD _ _ _ _ (Mixer.logsPlus_asked sl fl _ r.mixer) i
+
+/-- **A paused track is asked for nothing and contributes exactly 0**, for any buffer it is lent: its
+    output is exact silence, no send track is fed, and the log of every sound and effect anywhere below
+    it is unchanged. -/
+theorem C02_paused_subtree_asked_nothing (sl : S → List Nat) (fl : E → List Nat) (dt : α) (parentInfo : Info α)
+    (t : Trk α S E P) (hp : t.data.psm.state = .paused) (out : List (Frame α)) (sends : List (SendTrk α E)) :
+    (Trk.process C dt parentInfo t out sends).2.1 = zeros out.length
+      ∧ (Trk.process C dt parentInfo t out sends).2.2 = sends
+      ∧ Trk.logs sl fl (Trk.process C dt parentInfo t out sends).1 = Trk.logs sl fl t := by
+  have h : Trk.advancesIn C dt parentInfo out.length t = false :=
+    (Trk.preUpdate_paused dt (Trk.trackInfo C t.data parentInfo) out.length t.data hp).2
+  obtain ⟨h1, h2, h3, _, h5, _, h7, _⟩ := Trk.process_frozen C dt parentInfo t out sends h
+  refine ⟨h1, h2, ?_⟩
+  generalize Trk.process C dt parentInfo t out sends = res at h3 h5 h7
+  obtain ⟨t', _, _⟩ := res
+  cases t' with
+  | node d' c' p' =>
+    cases t with
+    | node d c p =>
+      simp only [Trk.children, Trk.data] at h3 h5 h7
+      simp only [Trk.logs, h3, h5, h7]
+
+/-- **Nothing is lost, nothing is partial.**  Over one callback of `frames` frames (settled tree), the
+    total number of frames requested from component `i` grows by exactly `frames` if its ancestor chain is
+    advancing and by exactly `0` if it is not — never by a partial count. -/
+theorem C02_no_partial_count (hC : C.LenPres) (sl : S → List Nat) (fl : E → List Nat)
+    (hL : C.Logging sl fl) (r : Renderer α S E P X) (hr : r.Clean) (hs : Trk.RestingList r.mixer.subTracks)
+    (hibs : 0 < r.ibs) (frames ch : Nat) (i : Nat) :
+    ((Mixer.logs sl fl (Renderer.processLoop C V ch frames r frames).1.mixer).getD i []).sum
+      = ((Mixer.logs sl fl r.mixer).getD i []).sum
+        + (if (Mixer.live sl fl r.mixer).getD i false then frames else 0) := by
+  have h := Renderer.Session.count C sl fl V hC hL ch r _ _
+    (Renderer.Session.callback r _ frames _ hr hs hibs (Renderer.Session.done _)) i
+  simpa using h
+
+/-- **Across callbacks with pause / resume commands in between** (`Renderer.Session`: callbacks of any
+    sizes, each starting from a clean renderer with a settled tree, interleaved with arbitrary commands
+    that do not themselves drive a sound or effect — pause, resume, volume changes …): the number of
+    frames component `i` has been asked for in total is the sum of the sizes of exactly those callbacks
+    during which its ancestor chain was advancing (`tot i`, accumulated by the session). -/
+theorem C02_session_count (hC : C.LenPres) (sl : S → List Nat) (fl : E → List Nat) (hL : C.Logging sl fl)
+    (ch : Nat) (r r' : Renderer α S E P X) (tot : Nat → Nat) (h : Renderer.Session C sl fl V ch r r' tot) (i : Nat) :
+    ((Mixer.logs sl fl r'.mixer).getD i []).sum = ((Mixer.logs sl fl r.mixer).getD i []).sum + tot i :=
+  Renderer.Session.count C sl fl V hC hL ch r r' tot h i
+
+end paused
+
+/-! non-vacuity for the paused-tree theorems: a clean renderer with one playing and one paused sub-track,
+    each holding a probe effect -/
+
+/-- probe effect used in the examples -/
+def exFx : PFx ℝ := ⟨0, 1, 0, 0, Frame.zero, [], 0⟩
+/-- a playing track with one effect, and the same track paused -/
+def exPlaying : Trk ℝ (PSnd ℝ) (PFx ℝ) Unit := Trk.build 0 0 [exFx] [] false 4
+def exPaused : Trk ℝ (PSnd ℝ) (PFx ℝ) Unit :=
+  .node { exPlaying.data with psm := (Psm.new none).markAsPaused } [] []
+def exRenderer : Renderer ℝ (PSnd ℝ) (PFx ℝ) Unit Unit :=
+  { dt := 1, mixer := { (Mixer.new 0 [] 4) with subTracks := [exPlaying, exPaused] }, env := (), ibs := 4,
+    temp := zeros 4 }
+
+theorem exRenderer_ok : exRenderer.Clean ∧ Trk.RestingList exRenderer.mixer.subTracks ∧ 0 < exRenderer.ibs
+    ∧ Mixer.live (fun s : PSnd ℝ => s.slices.reverse) (fun e : PFx ℝ => e.slices.reverse) exRenderer.mixer
+        = [true, false] := by
+  refine ⟨⟨rfl, ⟨rfl, rfl, ⟨Trk.build_clean 0 0 [exFx] [] false 4, ⟨rfl, trivial, trivial⟩, trivial⟩, trivial,
+    by simp [exRenderer, Mixer.new], by simp [exRenderer, Mixer.new]⟩⟩, ?_, by simp [exRenderer], ?_⟩
+  · exact ⟨⟨Or.inl rfl, trivial⟩, ⟨Or.inr rfl, trivial⟩, trivial⟩
+  · have h1 : Trk.advancing exPlaying.data = true := Trk.advancing_playing _ rfl
+    have h2 : Trk.advancing { exPlaying.data with psm := (Psm.new none).markAsPaused } = false :=
+      Trk.advancing_paused _ rfl
+    have m1 : Trk.mask (fun s : PSnd ℝ => s.slices.reverse) (fun e : PFx ℝ => e.slices.reverse) exPlaying = [true] := by
+      show Trk.mask _ _ (Trk.node exPlaying.data [] []) = _
+      rw [Trk.mask, if_pos h1]; simp [Trk.maskList, exPlaying, Trk.build, Trk.data]
+    have m2 : Trk.mask (fun s : PSnd ℝ => s.slices.reverse) (fun e : PFx ℝ => e.slices.reverse) exPaused = [false] := by
+      unfold exPaused
+      rw [Trk.mask, if_neg (by rw [h2]; simp)]
+      simp [Trk.logs, Trk.logsList, exPlaying, Trk.build, Trk.data]
+    simp [Mixer.live, Mixer.ownLogs, exRenderer, Trk.maskList, m1, m2, Mixer.new]
+
+/-- `C02_each_frame_once_paused_tree` / `C02_no_partial_count`: hypotheses hold for a tree with a playing
+    and a paused sub-track (live mask `[true, false]`) -/
+example : ∃ r : Renderer ℝ (PSnd ℝ) (PFx ℝ) Unit Unit, r.Clean ∧ Trk.RestingList r.mixer.subTracks ∧ 0 < r.ibs
+    ∧ Mixer.live (fun s : PSnd ℝ => s.slices.reverse) (fun e : PFx ℝ => e.slices.reverse) r.mixer = [true, false] :=
+  ⟨exRenderer, exRenderer_ok⟩
+
+/-- `C02_each_frame_once_any_chunk` / `C02_paused_subtree_asked_nothing`: a clean paused track exists -/
+example : Trk.Clean 4 exPaused ∧ exPaused.data.psm.state = .paused ∧ Trk.Clean 4 exPlaying
+    ∧ exPlaying.data.psm.state = .playing :=
+  ⟨⟨rfl, trivial, trivial⟩, rfl, Trk.build_clean 0 0 [exFx] [] false 4, rfl⟩
+
+/-- `C02_session_count`: a session with a callback, a pause-like command (any renderer with the same
+    component logs) and another callback exists from the example renderer -/
+example (V : EnvOps ℝ Unit) : ∃ r' tot, Renderer.Session (probeComps : Comps ℝ (PSnd ℝ) (PFx ℝ) Unit)
+    (fun s => s.slices.reverse) (fun e => e.slices.reverse) V 2 exRenderer r' tot :=
+  ⟨_, _, Renderer.Session.callback exRenderer _ 10 _ exRenderer_ok.1 exRenderer_ok.2.1 exRenderer_ok.2.2.1
+    (Renderer.Session.command _ _ _ _ rfl (Renderer.Session.done _))⟩
 
 end K
